@@ -566,11 +566,12 @@ impl From<u8> for Natural {
 impl Add for Natural {
     type Output = Self;
     fn add(mut self, mut rhs: Self) -> Self {
+        // `len == 0` holds for the number 0, but also for `Self::NAN`
         if rhs.len == 0 {
-            return self;
+            return if rhs.is_nan() { rhs } else { self };
         }
         if self.len == 0 {
-            return rhs;
+            return if self.is_nan() { self } else { rhs };
         }
 
         if self.shl > rhs.shl {
